@@ -7,7 +7,6 @@ import (
 	"hash/crc32"
 	"io/ioutil"
 	"net/http"
-	"net/http/httptest"
 	"os"
 	"path/filepath"
 	"sort"
@@ -610,12 +609,13 @@ func CheckC15(env *core.Env, rep *core.Report) *core.Result {
 			}
 		}
 	}
+	httpSkipped := false
 	// a configuration fetched from a URL (loopback server): import entries that are relative, absolute,
 	// not valid as URL references (bad escape, leading colon, control character), or missing on the server
-	{
+	func() {
 		var hmu sync.Mutex
 		docs := map[string]string{}
-		srv := httptest.NewServer(http.HandlerFunc(func(w http.ResponseWriter, r *http.Request) {
+		srv := loopbackServer(http.HandlerFunc(func(w http.ResponseWriter, r *http.Request) {
 			hmu.Lock()
 			b, ok := docs[r.URL.Path]
 			hmu.Unlock()
@@ -625,6 +625,10 @@ func CheckC15(env *core.Env, rep *core.Report) *core.Result {
 			}
 			_, _ = w.Write([]byte(b))
 		}))
+		if srv == nil {
+			httpSkipped = true
+			return // no loopback listener in this sandbox: the URL scenarios are left out
+		}
 		defer srv.Close()
 		entries := []string{"other.yaml", "%zz.yaml", ":x.yaml", "a\\u0001b.yaml", "sub/other.yaml", "/abs/other.yaml", "http://127.0.0.1:1/refused.yaml", srv.URL + "/other.yaml", srv.URL + "/missing.yaml"}
 		hmu.Lock()
@@ -644,7 +648,7 @@ func CheckC15(env *core.Env, rep *core.Report) *core.Result {
 				}
 			}
 		}
-	}
+	}()
 	// TOML's own scalar types (local dates, times, date-times; the decoder yields structures for them)
 	// where a section or a field is expected, in a file that imports or is imported: an error, not a crash
 	{
@@ -734,7 +738,7 @@ func CheckC15(env *core.Env, rep *core.Report) *core.Result {
 	e.samples.Add(map[string]interface{}{"kind": "envfile", "lines": []string{"kv", "blank", "nokv"}, "predicted": "Rejected"})
 	return e.result("exploration", int(runs), distinct.N(),
 		"structural: every (position, shape) pair of Shapes.tla - positions = top-level keys, the four sections, one entry of each, every documented field of an entry; shapes = null, int, string, empty string, bool, list, map, list of maps, nested list, deleted, duplicated, unknown key - applied to a base document that uses every documented key, serialised to YAML (all) and JSON/TOML (quick 1/3, thorough all; shapes a format cannot express are skipped and counted) and given to list, show, graph, validate; env_file: line sequences of length <=3 over 12 line classes plus a missing file (quick: all of length <=2 and 1/8 of length 3), predicted accept/reject; byte level: truncation at every 1/16, invalid UTF-8 at three offsets, empty / NUL / deeply nested input, YAML anchors, merge keys and alias expansion; nine configurations fetched from a loopback URL with import entries of every kind (relative, absolute, not valid as URL references, refused, missing); seven TOML files with local dates / times where sections or fields are expected, importing or imported; nine sparse documents (entries with next to no fields, an undefined context without dir, watch / exclude patterns that are not well-formed globs); four large valid documents (a layered pipeline with 3^17 paths in both declaration orders, a chain of 300 stages, 300 tasks) that must load, validate and draw within 20 s. distinct_nontrivial = distinct (position, shape, format) and env_file cases executed",
-		map[string]interface{}{"cases_in_model": len(cases), "skipped_not_expressible": skipped, "byte_level_runs": byteRuns},
+		map[string]interface{}{"cases_in_model": len(cases), "skipped_not_expressible": skipped, "byte_level_runs": byteRuns, "url_scenarios_left_out_no_loopback_listener": httpSkipped},
 		[]string{"'for all byte strings' is addressed structurally plus a fixed set of byte-level perturbations; no claim of coverage of arbitrary bytes",
 			"oracle: exit status 0 or 1, no panic / fatal error / goroutine dump, bounded time (8-10 s); accept/reject predicted only for unknown keys and env_file lines"})
 }
